@@ -100,7 +100,7 @@ def run(tier, seed):
     if tier == 'thorough':
         # depth 3 over the 55-letter G8 alphabet costs ~45 CPU-minutes per configuration: four of them (the full
         # eight took 2.7 h on 6 workers)
-        cores = cores[:1] + cores[6:7]  # (two configurations: ~15 min on 16 cores)
+        cores = cores[:1]  # one configuration (two still exceeded 30 min together with the rest of the tier)
     for mode, cfg in cores:
         if tier == 'quick':
             grid = bmm.G4 if cfg['tol'] == 0 else bmm.G5
@@ -123,8 +123,8 @@ def run(tier, seed):
         for N in Ns:
             if mode == 'labelled' and N > 130:
                 continue
-            D = 2 if (tier == 'thorough' or N == 8) else 1
-            units += ex.dev_units(cfg, entropy, N, D, nchunks=8 if D == 2 else 2, mode=mode, K=512,
+            D = 2 if ((tier == 'thorough' and N <= 130) or N == 8) else 1
+            units += ex.dev_units(cfg, entropy, N, D, nchunks=16 if D == 2 else 4, mode=mode, K=512,
                                   opts=dict(grid=pg), **vis)
     ex.selfcheck_determinism(entropy)
     chk.count('determinism_selfcheck_passed')
